@@ -744,9 +744,8 @@ fn run_case(c: &Case, env: &mut Env, drv: &mut Driver, rep: &mut Report, quiet: 
         let ex = c.explicit.as_ref() == Some(*p);
         let mm = mb[5 * i] == b'1' || ex;
         let ms = mb[5 * i + 1] == b'1' || ex;
-        // the model with exactly one repair: re-basing / override order as documented / --ignore-file files folded
+        // the model with exactly one repair: re-basing / --ignore-file files folded (the override order was repaired in /repo)
         let m_rebase = mb[5 * i + 2] == b'1' || ex;
-        let m_order = mb[5 * i + 3] == b'1' || ex;
         let m_xci = mb[5 * i + 4] == b'1' || ex;
         if imp != mm {
             out.push(mk("impl_vs_model", "", TIE, format!("file {:?}: rg lists = {}, model = {}", show(p), imp, mm)));
@@ -756,16 +755,10 @@ fn run_case(c: &Case, env: &mut Env, drv: &mut Driver, rep: &mut Report, quiet: 
             // (which re-bases paths like dir.rs does) predicts rg's answer, the spec — the same model with the one
             // switch `fixRebase` — answers differently (so re-basing is what decides this file), an ignore file ABOVE
             // the search root carries an anchored rule, and parent ignore files are in force
-            // `iglob-added-after-glob`: hiargs.rs adds every --iglob glob after every -g glob, so a later -g cannot
-            // override an earlier --iglob; attributed only when an --iglob precedes a -g on this command line, the
-            // model predicts rg, and repairing the ORDER alone yields the documented answer for this file
-            let iglob_before_glob = (0..c.globs.len()).any(|i| c.globkinds.get(i) == Some(&2) && (i + 1..c.globs.len()).any(|j| c.globkinds.get(j) != Some(&2)));
             let class = if !(imp == mm && mm != ms) {
                 ""
             } else if m_rebase == ms && parent_anchored && !eff[5] {
                 "parent-ignore-rebased-path"
-            } else if m_order == ms && iglob_before_glob {
-                "iglob-added-after-glob"
             } else if m_xci == ms && c.ifci && !c.igfiles.is_empty() && !eff[3] {
                 // `explicit-ignore-file-case-sensitive`: --ignore-file files are matched case-sensitively even under
                 // --ignore-file-case-insensitive; attributed only when both are on this command line, --no-ignore-files
@@ -774,8 +767,6 @@ fn run_case(c: &Case, env: &mut Env, drv: &mut Driver, rep: &mut Report, quiet: 
             } else if parent_anchored && !eff[5] {
                 // several repairs are needed for this file; the preconditions of this one hold
                 "parent-ignore-rebased-path"
-            } else if iglob_before_glob {
-                "iglob-added-after-glob"
             } else if c.ifci && !c.igfiles.is_empty() && !eff[3] {
                 "explicit-ignore-file-case-sensitive"
             } else {
